@@ -621,6 +621,12 @@ func (v Value) Export() (interface{}, error) {
 }
 
 func (v Value) export() interface{} {
+	return v.exportGraph(map[*object]bool{})
+}
+
+// exportGraph is export with the set of objects the recursion is inside of: a reference back
+// to one of them (a cycle) is exported as nil instead of being followed for ever.
+func (v Value) exportGraph(inside map[*object]bool) interface{} {
 	switch v.kind {
 	case valueUndefined:
 		return nil
@@ -637,6 +643,11 @@ func (v Value) export() interface{} {
 		}
 	case valueObject:
 		obj := v.object()
+		if inside[obj] {
+			return nil
+		}
+		inside[obj] = true
+		defer delete(inside, obj)
 		switch value := obj.value.(type) {
 		case *goStructObject:
 			return value.value.Interface()
@@ -661,7 +672,7 @@ func (v Value) export() interface{} {
 				if !obj.hasProperty(name) {
 					continue
 				}
-				value := obj.get(name).export()
+				value := obj.get(name).exportGraph(inside)
 
 				t = reflect.TypeOf(value)
 
@@ -708,7 +719,7 @@ func (v Value) export() interface{} {
 		obj.enumerate(false, func(name string) bool {
 			value := obj.get(name)
 			if value.IsDefined() {
-				result[name] = value.export()
+				result[name] = value.exportGraph(inside)
 			}
 			return true
 		})
